@@ -72,7 +72,10 @@ SubQ(w) == [BaseQ EXCEPT !.sel = <<Item(Col("c"), "")>>, !.from = Table(<<"<-", 
 SelfQ(w) == [BaseQ EXCEPT !.sel = <<Item(A, "")>>, !.from = Table(<<"<-", "t">>, ""), !.where = w]
 SubPreds == {InSub(A, SubQ(None)), InSub(A, SubQ(CmpE(">", Col("c"), LN(0)))),
              NotE(InSub(A, SubQ(None))), AndE(InSub(A, SubQ(None)), CmpE("<", A, LN(2))),
-             InSub(A, SelfQ(CmpE(">", A, LN(0)))), NotE(InSub(A, SelfQ(CmpE("<", A, LN(2)))))}
+             InSub(A, SelfQ(CmpE(">", A, LN(0)))), NotE(InSub(A, SelfQ(CmpE("<", A, LN(2))))),
+             \* the operator NOT IN over a subquery: the complement of IN ("consequently NOT IN is the complement of IN")
+             NotInSub(A, SubQ(None)), NotInSub(A, SubQ(CmpE(">", Col("c"), LN(0)))), NotE(NotInSub(A, SubQ(None))),
+             OrE(NotInSub(A, SubQ(None)), CmpE("=", A, LN(0))), NotInSub(A, SelfQ(CmpE("<", A, LN(2))))}
 URows == {Row([c |-> NumV(i)]) : i \in 0..2}
 
 Families ==
